@@ -206,15 +206,17 @@ func InclusiveRangeContains(
 	end := getFieldAsIntegerValue(context, rangeValue, sema.InclusiveRangeTypeEndFieldName)
 	step := getFieldAsIntegerValue(context, rangeValue, sema.InclusiveRangeTypeStepFieldName)
 
-	result := start.Equal(context, needleValue) ||
-		end.Equal(context, needleValue)
-
-	if result {
+	if start.Equal(context, needleValue) {
 		return TrueValue
 	}
 
-	// Exclusive check since we already checked for boundaries above.
-	if !isNeedleBetweenStartEndExclusive(context, needleValue, start, end) {
+	var result bool
+
+	// NOTE: the end is only part of the sequence if it is reachable from the start by steps,
+	// so it is checked like any other value between the start and the end
+	if !end.Equal(context, needleValue) &&
+		!isNeedleBetweenStartEndExclusive(context, needleValue, start, end) {
+
 		result = false
 	} else {
 		// needle is in between start and end.
